@@ -116,6 +116,29 @@ Example C19_attention_identity_computes :
   att_fused nat (fun r c => fold_right plus 0 (map2 mult r c)) plus (list (list nat)) (fun q k v => q ++ k ++ v)
             [[1; 2]; [3; 4]] ([[1; 0]] ++ [[0; 1]] ++ [[1; 1]]) [10; 20; 30] 1 1 1 = [[11]; [13]; [22]; [24]; [33]; [37]].
 Proof. exact attention_identity_computes. Qed.
+(* the packed-MatMul + Slice variant of the rule (no_slice = False) *)
+Theorem C19_attention_fusion_identity_slice : forall (A Out : Type) (dot : list A -> list A -> A) (add : A -> A -> A)
+  (core : list (list A) -> list (list A) -> list (list A) -> Out) rows W bias dq dk dv,
+  length bias = length W -> dq + dk + dv = length W ->
+  att_fused A dot add Out core rows W bias dq dk dv = att_pattern_slice A dot add Out core rows W bias dq dk.
+Proof. exact attention_fusion_identity_slice. Qed.
+Print Assumptions C19_attention_fusion_identity_slice.
+Example C19_attention_slice_identity_computes :
+  att_pattern_slice nat (fun r c => fold_right plus 0 (map2 mult r c)) plus (list (list nat)) (fun q k v => q ++ k ++ v)
+            [[1; 2]; [3; 4]] [[1; 0]; [0; 1]; [1; 1]] [10; 20; 30] 1 1 = [[11]; [13]; [22]; [24]; [33]; [37]].
+Proof. exact attention_slice_identity_computes. Qed.
+(* check()-sufficiency of the packed variant: slices start at 0, are contiguous (equal bound values -- or both unknown, which the
+   code also accepts: get_singleton_value(end1) == get_singleton_value(start2) is None == None), reach the end of the projection;
+   weight [D, Dq + Dk + Dv] with the input's D; the slices' recorded widths are the emitted qkv_hidden_sizes *)
+Theorem C19_att_check_sufficient_slice : forall i dq dk dv, ai_no_slice i = false -> att_check_rewrite i = Some (dq, dk, dv) ->
+  exists b s d p0 p1 hidden s1 e1 s2 e2 s3 e3,
+    ai_input i = Some [b; s; d] /\ ai_qkv_weight i = Some [d; dq + dk + dv]%Z
+    /\ ai_projected i = Some [p0; p1; hidden] /\ (0 <= hidden)%Z
+    /\ ai_bounds i = [s1; e1; s2; e2; s3; Some e3] /\ s1 = Some 0%Z /\ oz_eq e1 s2 = true /\ oz_eq e2 s3 = true /\ (hidden <= e3)%Z
+    /\ ai_q i = Some [b; s; dq] /\ ai_k i = Some [b; s; dk] /\ ai_v i = Some [b; s; dv]
+    /\ (0 <= dq /\ 0 <= dk /\ 0 <= dv)%Z.
+Proof. exact att_check_sufficient_slice. Qed.
+Print Assumptions C19_att_check_sufficient_slice.
 Theorem C19_att_check_sufficient_noslice : forall i dq dk dv, ai_no_slice i = true -> att_check_rewrite i = Some (dq, dk, dv) ->
   exists b s d, ai_input i = Some [b; s; d] /\ ai_q i = Some [d; dq] /\ ai_k i = Some [d; dk] /\ ai_v i = Some [d; dv]
     /\ (0 <= dq /\ 0 <= dk /\ 0 <= dv)%Z.
@@ -149,3 +172,17 @@ Theorem C19_cs_batch_differs_spec : forall (ids : list (list nat)) B, 0 < B -> (
   (cs_batch_differs (length ids) B = true <-> exists b, b < B /\ cs_fused_row ids b <> cs_pattern_row ids b).
 Proof. exact cs_batch_differs_spec. Qed.
 Print Assumptions C19_cs_batch_differs_spec.
+
+(* C19:mha:unnamed-dims-compared-equal (known; repair ready/C19_09: check_shape never equates two unknown dims).  With the repaired
+   comparison every occurrence of an unnamed dim has its own code (<= -1000): an accepted match then has no unnamed dim among
+   the query's batch / sequence dims, i.e. the hypothesis of C19_mha_check_sufficient holds for them; the witness is refused *)
+Theorem C19_mha_check_fresh_unnamed : forall st i h ub q q4,
+  mha_check_rewrite st i = Some (h, ub) -> mi_query i = Some q -> mi_query4 i = Some q4 ->
+  NoDup (filter is_fresh_unnamed (q ++ q4)) ->
+  forall d, In d (firstn 2 q) -> is_fresh_unnamed d = false.
+Proof. exact mha_check_fresh_unnamed. Qed.
+Print Assumptions C19_mha_check_fresh_unnamed.
+Theorem C19_mha_unnamed_witness_refused_by_repair :
+  mha_check_rewrite false (mk_mha_in false true true (Some [-1000; -1001; 8]%Z) (Some [-1002; -1003; 2; 4]%Z) (Some [-1004; -1005; 8]%Z) (Some [-1006; -1007; 8]%Z) None None None) = None.
+Proof. exact mha_unnamed_witness_refused_by_repair. Qed.
+Print Assumptions C19_mha_unnamed_witness_refused_by_repair.
